@@ -145,10 +145,9 @@ def _order_flow(fn, name, upto):
         # conditional expression: both arms
         arms = [v.body, v.orelse] if isinstance(v, ast.IfExp) else [v]
         for arm in arms:
-            if isinstance(arm, ast.Call):
-                chain.append((U(arm.func), a))
-            elif isinstance(arm, ast.Name) and arm.id == name:
-                continue
+            for c in ast.walk(arm):
+                if isinstance(c, ast.Call):
+                    chain.append((U(c.func), a))
     return chain
 
 
